@@ -1,5 +1,5 @@
 (* Checkers evaluated by the correspondence run (indices of mismatching cases). *)
-From V Require Import Common.Base C06.TsTokens C06.SkipType C06.Enum C06.TsTarget.
+From V Require Import Common.Base C06.TsTokens C06.SkipType C06.Enum C06.TsTarget C06.ParamProps.
 
 Fixpoint mism_from {A} (f : A -> bool) (l : list A) (i : nat) : list nat :=
   match l with
@@ -34,3 +34,4 @@ Definition check_skip := mismatches skip_ok.
 Definition check_enum := mismatches enum_case_ok.
 
 Definition check_target := mismatches target_case_ok.
+Definition check_pp := mismatches pp_case_ok.
